@@ -698,3 +698,32 @@ fn test_dontset_values() {
     assert!(msg.options.find_option(icmppkt::DNSSL).is_empty());
     assert!(msg.options.find_option(icmppkt::CAPTIVE_PORTAL).is_empty());
 }
+
+/// Verification hook: the advertisement erbium would send on interface `ifname`
+/// (configuration as loaded; link-layer address, interface MTU, interface
+/// address and default router lifetime supplied by the caller), serialised.
+#[cfg(erbium_verif)]
+pub fn verif_build_ra(
+    conf: &crate::config::Config,
+    ifname: &str,
+    ll: Option<[u8; 6]>,
+    if_mtu: Option<u32>,
+    self6: std::net::Ipv6Addr,
+    default_lifetime: std::time::Duration,
+) -> Option<Vec<u8>> {
+    let intf = conf.ra.interfaces.iter().find(|i| i.name == ifname)?;
+    /* as in build_announcement() */
+    use config::ConfigValue::*;
+    let mtu = match intf.mtu {
+        NotSpecified => if_mtu,
+        Value(v) => Some(v),
+        DontSet => None,
+    };
+    let lifetime = match intf.lifetime {
+        NotSpecified => default_lifetime,
+        Value(v) => v,
+        DontSet => std::time::Duration::from_secs(0),
+    };
+    let adv = RaAdvService::build_announcement_pure(conf, intf, ll, mtu, self6, lifetime);
+    Some(icmppkt::serialise(&icmppkt::Icmp6::RtrAdvert(adv)))
+}
